@@ -97,7 +97,8 @@ func (r *MMapReader) SeekNext(offset uint64) (uint64, []byte, error) {
 				}
 			}
 			if ix-i < len(MagicNumberSeparatorLongBytes) {
-				i = ix + 1
+				// only the byte at i is ruled out as a marker start, the mismatching byte may start the marker itself
+				i++
 				continue
 			}
 
